@@ -181,6 +181,8 @@ PROPS = {
                      "Goat.C07.aggregateLocks_eq", "Goat.C07.aggregateLocks_never_err", "Goat.C07.keys_aggregate_first_occurrence", "Goat.C07.keys_aggregate_nodup",
                      "Goat.C07.aggregate_amount", "Goat.C07.aggregate_amount_perm", "Goat.C07.aggregateLocks_deterministic",
                      "Goat.C07.comet_apply_order_insensitive", "Goat.C07.comet_apply_perm", "Goat.C07.agree_then_comet_agree"],
+        "race": {"stream": "app-det", "quick": 200, "thorough": 1500, "seeds": 3, "theorem": "Goat.FactsThms.nondeterminism_confined",
+                 "what": "the Go race detector reports a data race while blocks are executed (results then depend on goroutine scheduling)"},
         "streams": [{"name": "app-det", "quick": 700, "thorough": 5000, "seeds": 12}],
         "assumptions": ["the committed multistore (IAVL) and cachekv flush order are cosmos-sdk's (dependency, not modelled); the twin replica runs the same binary in the same process with independently constructed applications and databases",
                         "goroutine interleavings are exercised only as far as the Go scheduler varies them over the repeated executions (each block is executed by two replicas, re-executed, and once more after a restart from disk)",
